@@ -134,7 +134,7 @@ def r_tree_raise(ck: Checker) -> None:
     body = strip_docstring(f.node.body)
     np_ = f.node.args.args[1].arg
     par = f"self.get_parent({np_})"
-    leaves = decision_tree(body, alias_filter=lambda st: False)
+    leaves = decision_tree(body, alias_filter=lambda st: False, resolve="calls")
     k_rel = k_none("relative_to")
     k_chk = "check_ancestor"
     k_anc = f"self.is_ancestor({np_}, relative_to)"
@@ -148,6 +148,9 @@ def r_tree_raise(ck: Checker) -> None:
         if unknown:
             unrec.append(f"decides on {sorted(unknown)}")
             continue
+        # identity is an equivalence: parent is relative_to  =>  (parent is None) == (relative_to is None)
+        if a.get(k_same) is True and k_rel in a and k_par in a and a[k_rel] != a[k_par]:
+            continue
         must_raise = a.get(k_rel) is False and a.get(k_chk) is True and a.get(k_anc) is False
         if lf.outcome == "raise":
             if not must_raise or "ValueError" not in (lf.val() or ""):
@@ -160,7 +163,7 @@ def r_tree_raise(ck: Checker) -> None:
         if a.get(k_par) is True:
             if v != "0":
                 bad.append(f"root depth is {v}")
-        elif a.get(k_same) is True and a.get(k_rel) is not True:
+        elif a.get(k_same) is True and (a.get(k_rel) is False or a.get(k_par) is False):
             if v != "1":
                 bad.append(f"depth relative to the direct parent is {v}")
         else:
